@@ -59,17 +59,11 @@ Fixpoint assoc_lower (t : list (N * str)) (c : N) : str :=
   end.
 Definition lower (p : prep) (s : str) : str := flat_map (assoc_lower (p_lower p)) s.
 
-(* legal_characters.match(value) for the pattern ^[C]+$ : "$" also matches before one final newline *)
+(* legal_characters.match(value) for the pattern ^[C]+\Z : one or more characters of C up to the end of
+   the string (fix 67008c4; the former "$" anchor also matched before one final newline) *)
 Definition all_legal (p : prep) (s : str) : bool :=
   match s with [] => false | _ => forallb (in_ranges (p_legal p)) s end.
-Fixpoint strip_final_nl (s : str) : option str :=
-  match s with
-  | [] => None
-  | [c] => if N.eqb c nl then Some [] else None
-  | c :: r => match strip_final_nl r with Some r' => Some (c :: r') | None => None end
-  end.
-Definition legal_match (p : prep) (s : str) : bool :=
-  all_legal p s || match strip_final_nl s with Some w => all_legal p w | None => false end.
+Definition legal_match (p : prep) (s : str) : bool := all_legal p s.
 
 (* _requires_quotes: the four disjuncts in source order; value[0] raises IndexError on "" *)
 Definition requires_quotes (p : prep) (v : str) : res bool :=
@@ -369,11 +363,6 @@ Definition compat (p : prep) (b : backend) : bool :=
   && forallb (fun w => mem_str w (p_reserved p)) (b_kw b)
   && forallb (fun c => memN c (map fst (p_lower p))) (enum_range (65, 90))
   && Bool.eqb (p_esc_pct p) (b_pct b).
-
-(* the defective region of quote(): a name that is legal up to one final newline and is emitted bare *)
-Definition bare_nl (p : prep) (v : str) : bool :=
-  negb (all_legal p v) &&
-  match requires_quotes p v with Ok false => true | _ => false end.
 
 Definition has_pct (v : str) : bool := memN pct v.
 Definition nonempty (v : str) : bool := match v with [] => false | _ => true end.
